@@ -43,6 +43,46 @@ def judge_tree(op, impl, model, spec):
     return "ok" if mp is not None and disp.match(mp, ib) else "corr"
 
 
+# deep nests: (unit prefix, unit suffix, opening text, closing text); hex = prefix*d + 00 + suffix*d
+DEEP_KINDS = {"arr": ("81", "", "[", "]"), "iarr": ("9f", "ff", "[_ ", "]"), "tag": ("c1", "", "1(", ")"), "map": ("a100", "", "{0: ", "}"),
+              "imap": ("bf00", "ff", "{_ 0: ", "}"), "arr2": ("8201", "", "[1, ", "]"), "mix": ("81c19f", "ff", "[1([_ ", "])]")}
+DEEP_MODEL_MAX = 4000        # the Lean display model is quadratic in the depth; beyond, the documented notation alone judges
+
+
+def deep_expected(kind, d):
+    pre, suf, o, c = DEEP_KINDS[kind]
+    return (o * d + "0" + c * d).encode()
+
+
+def judge_deep(op, impl, model, spec):
+    w = op.split(" ")
+    ann = [x for x in w if x.startswith("#D=")][0][3:].split(":")
+    kind, d, cut = ann[0], int(ann[1]), ann[2] == "cut"
+    n = len(w[1]) // 2
+    if impl.startswith("overflow") or impl in ("panic", "fmt-error") or impl.startswith("crash"):
+        return "violation"
+    ib = disp.canon_impl(impl)
+    if ib is None or len(ib) > K * n + K0:
+        return "violation"
+    if not cut and bytes.fromhex(impl) != deep_expected(kind, d):
+        return "violation"
+    if d > DEEP_MODEL_MAX:
+        return "ok"
+    mp = disp.model_pieces(model)
+    return "ok" if mp is not None and disp.match(mp, ib) else "corr"
+
+
+def deep_ops(tier):
+    ops, mops = [], []
+    for kind, (pre, suf, _, _) in DEEP_KINDS.items():
+        for d in ((1000, 4000, 20000) if tier == "quick" else (1000, 4000, 20000, 100000, 400000)):
+            for cut in (False, True):
+                h = pre * d + ("" if cut else "00" + suf * d)
+                ops.append(f"display {h} #D={kind}:{d}:{'cut' if cut else 'full'}")
+                mops.append(f"display {h}" if d <= DEEP_MODEL_MAX else "display 00")
+    return ops, mops
+
+
 def streams(rng, tier):
     q = tier == "quick"
     ops = ["display -"]
@@ -83,10 +123,19 @@ def streams(rng, tier):
             ops.append("display " + bytes(m).hex())
     s1 = Stream("arbitrary-bytes", "hcore", ops, judge=judge_total, rule=RULE, nontrivial=lambda op, impl: impl not in ("-", "bad-op"))
     s2 = Stream("wellformed-notation", "hcore", tops, judge=judge_tree, rule="display of encW(tree) == notation rendered from the tree")
-    s1.shrinkable = s2.shrinkable = False
-    return [s1, s2]
+    dops, dmops = deep_ops(tier)
+    s3 = Stream("deep-nests", "hcore", dops, model_ops=dmops, judge=judge_deep,
+                rule="display of arrays / maps / tags (definite, indefinite, mixed) nested 10^3 .. 2*10^4 (thorough: 4*10^5) deep, complete and cut "
+                     "after the last head, run on a thread with a 192 KiB stack: output == the documented notation (complete items), within the "
+                     "size bound, no crash (pending work must not live on the call stack); compared with the model up to depth 4000")
+    s1.shrinkable = s2.shrinkable = s3.shrinkable = False
+    return [s1, s2, s3]
 
 
 def replay_streams(rp):
-    op = " ".join(rp["original_op"].split(" ")[:2])
+    full = rp["original_op"]
+    if "#D=" in full:
+        d = int(full.split("#D=")[1].split(":")[1])
+        return [Stream("replay", "hcore", [full], model_ops=[" ".join(full.split(" ")[:2]) if d <= DEEP_MODEL_MAX else "display 00"], judge=judge_deep)]
+    op = " ".join(full.split(" ")[:2])
     return [Stream("replay", "hcore", [op], judge=judge_total)]
